@@ -157,6 +157,11 @@ func runC08(c *Ctx) {
 	R.Rule("C08.R2c", "completeness: every StartTag path — and every SelfClosingTag path for a non-void element, whose slash browsers and the tokenizer ignore — on which the element is in the skip set, admitted by no element table and past the script/style gate leaves the arm with the skip flag set")
 	R.Rule("C08.R4", "increments are matchable: the (true, depth+1) site is reached only for elements that can have an end tag (not under a void-element test)")
 	R.Rule("C08.R5", "the skip set is edited only by builder methods (SkipElementsContent / AllowElementsContent / defaults), which store and delete keys that are strings.ToLower(name) and nothing else")
+	R.Rule("C08.R6", "a policy's skip set is its own: the map installed in the skip-set field is freshly made in the storing function (never a package-level table or another policy's map), so SkipElementsContent / AllowElementsContent on one policy cannot change what another policy skips")
+	if F0 := model.FindFields(c.P); F0 != nil {
+		skipField := F0.Get("skipSet")
+		freshTables(c, "C08.R6", func(f string) bool { return f == skipField }, 1)
+	}
 	R.Assume(TrustGo, TrustTokenizer, "the end-to-end marker statement over all nestings depends on the counter's run-time value; only its transitions and guards are decided here")
 	sc := newSC(c, "C08.R1")
 	if sc == nil {
